@@ -10,8 +10,10 @@ resp = os.path.join(V, "seeded", "RESULTS.json")
 res = json.load(open(resp)) if os.path.exists(resp) else {}
 for sid in sorted(os.listdir(os.path.join(V, "seeded"))):
     d = os.path.join(V, "seeded", sid)
-    if not os.path.isdir(d) or not sid.startswith(pref):
+    if not os.path.isdir(d) or not sid.startswith(pref) or sid == "refactorings":
         continue
+    if os.environ.get("ONLY_NOT_CAUGHT") and res.get(sid, {}).get("exit") == 1:
+        continue        # re-run only what was missed / undecided the last time
     meta = json.load(open(os.path.join(d, "meta.json"))) if os.path.exists(os.path.join(d, "meta.json")) else {"property": sid[:3]}
     prop = meta["property"]
     if prop not in claimed:
